@@ -21,6 +21,10 @@ Clause map
   `rangeIntersects_sound` / `rangeIntersects_complete` / `rangeIntersects_skip` (the included-range
   test finds exactly the overlapping differences; skipping differences that end at or before the
   position — the parser's `included_range_difference_index` — does not change the answer).
+* "a reused subtree built in another parse state is taken apart" — `breakdown_offset` (breaking a
+  reused look-ahead down to first children never moves it), `breakdown_stops` (it ends on a leaf
+  or on a node built in the current state) for the port `Iter.breakdown` of
+  `ts_parser__breakdown_lookahead`.
 * "a reused token is what the lexer would produce again" — `relex_before`, `relex_after`
   (text level, any `LexLocal` lexer), `relex_same_unmarked_leaf` (tie to C10's `editTree`: a leaf
   that `ts_subtree_edit` leaves unmarked re-lexes to itself), byte dimension.
@@ -97,6 +101,100 @@ theorem gate_verdict_complete (L : Lang) (diffs : List (Nat × Nat)) (t : Tree) 
               all_goals simp
             · simp [he]
         · simp
+
+/-! ## `ts_parser__breakdown_lookahead` -/
+
+theorem descend_offset (it it' : Iter) (h : it.descend = some it') : it'.byteOffset = it.byteOffset := by
+  unfold Iter.descend at h
+  split at h
+  · contradiction
+  · rename_i last rest hst
+    split at h
+    · contradiction
+    · simp only [Option.some.injEq] at h
+      subst h
+      simp [Iter.byteOffset, hst]
+
+/-- `breakdown_offset`: breaking a reused look-ahead down to its first children never moves it —
+the node finally shifted starts at the same byte as the node the gate accepted. -/
+theorem breakdown_offset : ∀ (fuel : Nat) (it : Iter) (state : Nat),
+    (Iter.breakdown fuel it state).byteOffset = it.byteOffset
+  | 0, it, _ => rfl
+  | fuel + 1, it, state => by
+    unfold Iter.breakdown
+    split
+    · rfl
+    · split
+      · split
+        · rename_i it' hd
+          rw [breakdown_offset fuel it' state, descend_offset it it' hd]
+        · rfl
+      · rfl
+
+/-- `breakdown_stops`: with enough fuel the node it ends on is a leaf or was built in the current
+parse state (what the shift that follows relies on). -/
+theorem breakdown_stops : ∀ (fuel : Nat) (it : Iter) (state : Nat) (t : Tree),
+    (Iter.breakdown fuel it state).tree? = some t → (∀ t0, it.tree? = some t0 → t0.size ≤ fuel) →
+    needsBreakdown t state = false
+  | 0, it, state, t, h, hf => by
+    have := hf t h
+    cases t with
+    | mk d ks => simp [Tree.size] at this
+  | fuel + 1, it, state, t, h, hf => by
+    unfold Iter.breakdown at h
+    split at h
+    · rename_i hn; rw [hn] at h; contradiction
+    · rename_i t0 ht0
+      split at h
+      · rename_i hnb
+        split at h
+        · rename_i it' hd
+          apply breakdown_stops fuel it' state t h
+          intro t1 ht1
+          -- the first child is strictly smaller than its parent
+          have hsz := hf t0 ht0
+          unfold Iter.descend at hd
+          split at hd
+          · contradiction
+          · rename_i last rest hst
+            split at hd
+            · contradiction
+            · rename_i c cs hk
+              simp only [Option.some.injEq] at hd
+              subst hd
+              simp only [Iter.tree?, List.head?_cons, Option.map_some, Option.some.injEq] at ht1
+              subst ht1
+              have hl : last.tree = t0 := by
+                simp only [Iter.tree?, hst, List.head?_cons, Option.map_some, Option.some.injEq] at ht0
+                exact ht0
+              rw [← hl] at hsz
+              cases hlt : last.tree with
+              | mk d ks =>
+                rw [hlt] at hsz hk
+                simp only [Tree.kids] at hk
+                subst hk
+                simp only [Tree.size, Tree.sizeList] at hsz
+                omega
+        · -- descend impossible although the node has children: contradiction with needsBreakdown
+          rename_i hd
+          exfalso
+          unfold Iter.descend at hd
+          split at hd
+          · rename_i hst; simp [Iter.tree?, hst] at ht0
+          · rename_i last rest hst
+            split at hd
+            · rename_i hk
+              have hl : last.tree = t0 := by
+                simp only [Iter.tree?, hst, List.head?_cons, Option.map_some, Option.some.injEq] at ht0
+                exact ht0
+              rw [hl] at hk
+              simp [needsBreakdown, hk] at hnb
+            · contradiction
+      · rename_i hnb
+        rw [ht0] at h
+        simp only [Option.some.injEq] at h
+        subst h
+        simpa using hnb
 
 /-! ## `ts_parser__can_reuse_first_leaf` -/
 
